@@ -43,6 +43,8 @@ def gen_case(rng, wf=True, gitlike=False):
     cdate = gitfmt.gen_date(rng, canonical=gitlike, integer=gitlike) if committer is not None and (gitlike or rng.random() < 0.8) else None
     nparents = rng.choice([0, 1, 1, 2, 3, 5])
     parents = [hx(bytes(rng.randrange(256) for _ in range(20))) for _ in range(nparents)]
+    if parents and rng.random() < 0.2 and not gitlike:
+        parents.insert(rng.randrange(len(parents) + 1), rng.choice(parents))  # the same parent listed twice
     if parents and rng.random() < 0.1 and not gitlike:
         parents.insert(rng.randrange(len(parents) + 1), "")  # an empty parent id is skipped by the formatter
     extra = []
